@@ -361,12 +361,48 @@ def every_project_is_assembled_with_names_of_its_own(F, res, rule="T9"):
            n >= 1 and not bad, where=F.fn(ag).loc(), how="top-level calls: %d; %s" % (n, "; ".join(bad) if bad else "each with a table built in the same iteration"))
 
 
+def packages_are_not_identified_by_name(F, res, rule="T10"):
+    """T10: two packages with one name are two packages. Names are unique within one project's dependency closure only (T9): two
+    projects open in one session, or an app and its path dependency with a `build/packages` of their own, both have a `dep1`.
+    PackageGraph::add_package therefore answers with a fresh entry on every path; if it ever hands back an existing entry, what it
+    found it by must include the manifest (the `gleam_toml` file id), not the display name alone - else an import resolves into the
+    copy of a package the importer does not depend on."""
+    f = F.fns.get("ide::base::PackageGraph::add_package")
+    if f is None or not f.blocks:
+        res.anchor_missing(rule, "ide::base::PackageGraph::add_package")
+        return
+    d = FL.Defs(f)
+    o = d.origin(0)
+    cands = [o] if o.get("k") != "multi" else [{"k": "call", "t": dd[3], "bb": dd[0]} if dd[2] == "call" else d.origin_rv(dd[3]["rv"], 0, dd[0], 0, ()) for dd in o["defs"]]
+    fresh = [c for c in cands if c.get("k") == "call" and FL.short(callee(c["t"]) or "").endswith("Arena::alloc")]
+    other = [c for c in cands if c not in fresh]
+    # parameters by name
+    names = {v.get("name"): v.get("local") for v in f.d.get("var_debug", []) if v.get("local") is not None}
+    pn = {i: (f.d.get("arg_names") or {}).get(str(i)) for i in range(1, f.d["arg_count"] + 1)}
+    deps = set()
+    units = [f] + [F.fns[c] for c in F.closures_of(f.path) if c in F.fns]
+    for g in units:
+        dg = FL.Defs(g) if g is not f else d
+        for b in sorted(g.reachable()):
+            t = g.term(b)
+            if t["k"] == "switch":
+                dd = FL.depends(F, g, dg, t["op"])
+                deps |= {(g.path == f.path, a) for a in dd["args"]}
+    decided_by = sorted(a for own, a in deps if own)
+    ok = bool(fresh) and (not other or 3 in decided_by)
+    res.ob(rule, "add_package/fresh-entry", "PackageGraph::add_package answers with a newly allocated entry on every path (or finds an existing one by its manifest, "
+           "never by its name alone)", ok, where=f.loc(),
+           how="%d answer(s), all from Arena::alloc" % len(fresh) if ok and not other else
+           "answers that are not a fresh allocation: %d; parameters that decide: %s (2 = display_name, 3 = gleam_toml)" % (len(other), decided_by))
+
+
 def run(F, res, tier):
     direct_dependencies_only(F, res)
     lookups_go_through_visible_modules(F, res)
     roots_are_registered_consistently(F, res)
     path_dependencies_are_normalised(F, res)
     every_project_is_assembled_with_names_of_its_own(F, res)
+    packages_are_not_identified_by_name(F, res)
     from rules import c08 as _c08, c15 as _c15, c05 as _c05, c07 as _c07
     _c08.locality_comes_from_the_registered_path(F, res, rule="T4")      # V9 + V10 (longest root first)
     _c15.files_lie_below_their_root(F, res, rule="T4")                  # M10
